@@ -64,7 +64,7 @@ RULE = (
     'possibly onto a name another parameter had), added, removed, so the saved-iteration file names parameters that are '
     'now fixed / absent and lacks free ones; judged: fixed parameters keep exactly the given value (Beta objects, '
     'fixed_betas_values, every engine call), reported likelihood = reference at the reported estimates by name, '
-    'stationarity per name; the starting point is not judged (C15); distinct = hash of the specification sequence'
+    'the gradient held by the results matches the reference derivative name by name; neither the starting point (C15) nor the quality of the stopping point (C07) is judged; distinct = hash of the specification sequence'
 )
 ASSUMPTIONS = [
     'reference semantics = biomon/oracle/evalast.py (numpy, complex-step derivatives), guarded at every run by a closed-form '
@@ -961,6 +961,30 @@ def _biogeme_change_init(w: Watch, r: random.Random):
 # estimation
 
 
+def _reported_gradient_by_name(rec, viol, res, names, refgrad, counter):
+    """the gradient the results object holds (res.data.g, positions = free_beta_names) must be, entry by entry, the
+    reference derivative w.r.t. the parameter of THAT name at the reported estimates. Whether the point is a maximum
+    is the optimiser's business (C07), not a naming matter: it is not judged."""
+    try:
+        g = np.asarray(res.data.g, dtype=float).ravel()
+    except Exception:
+        return
+    if g.shape != (len(names),):
+        viol('reported-gradient-length', f'{g.shape} for {len(names)} free parameters')
+        return
+    obs = {n: float(g[i]) for i, n in enumerate(names)}
+    sc = max(1.0, max(abs(v) for v in refgrad.values()))
+    rec.ev()
+    rec.c(counter)
+    if not all(close(obs[n], refgrad[n], 1e-6, 1e-7 * sc) for n in names):
+        if _perm_explains(obs, refgrad, 1e-6, 1e-7 * sc):
+            viol('reported-gradient-entries-attached-to-other-parameters', f'results gradient by free_beta_names {obs}; reference by name {refgrad}')
+        else:
+            rec.c('derivative_mismatch_not_a_permutation')
+
+
+
+
 def _estimate(w: Watch, start: dict, tol: float, r: random.Random, boot: int = 0):
     """returns by-O-name observations of the results object"""
     from ..oracle import c03_ref as ref
@@ -1065,7 +1089,7 @@ def _estimate(w: Watch, start: dict, tol: float, r: random.Random, boot: int = 0
             break
     if any_active:
         rec.c('estimations_with_active_bound')
-    # (iii) stationarity of the reference likelihood at the reported point, coordinate by coordinate
+    # (iii) conditioning of the problem (guards the O/S/R comparison of estimates) and the reported gradient by name
     se, rse, V, d = ref.std_errors(ast, model, values, names)
     try:
         Hm = -np.array([[d['hessian'][(a, b)] for b in names] for a in names], dtype=float)
@@ -1073,26 +1097,10 @@ def _estimate(w: Watch, start: dict, tol: float, r: random.Random, boot: int = 0
         out['well_conditioned'] = bool(eig.min() > 1e-2 and eig.max() / eig.min() < 1e5)
     except Exception:
         out['well_conditioned'] = False
-    if converged:
-        rec.ev()
-        rec.c('stationarity_by_name_checked')
-        denom = max(abs(rll), 1.0)
-        for n in names:
-            g = d['gradient'][n]
-            lo, hi = _bounds_of(model, n)
-            at_lo = lo is not None and abs(est[n] - lo) <= 1e-6
-            at_hi = hi is not None and abs(est[n] - hi) <= 1e-6
-            rel = abs(g) * max(abs(est[n]), 1.0) / denom
-            lim = max(50 * tol, 1e-4)  # a mis-attached estimate leaves a relative gradient of 1e-2 .. 1
-            if at_lo and g <= lim * denom:
-                continue
-            if at_hi and g >= -lim * denom:
-                continue
-            if rel > lim:
-                w.viol('reported-estimate-not-stationary-for-its-own-name',
-                       f'd LL / d {n!r} = {g} at the reported estimates {est} (relative {rel:.3g} > {lim:.3g}); converged={converged}', name=n)
-                break
-    else:
+    # (was: stationarity per name. Dropped: whether the reported point is a maximum is C07's subject -- the optimiser may
+    #  legitimately stop by its own projected-gradient rule next to a bound; what decides NAME attachment is (i) above and:)
+    _reported_gradient_by_name(rec, lambda mech, msg: w.viol(mech, msg), res, names, d['gradient'], 'reported_gradient_by_name_checked')
+    if not converged:
         rec.c('estimations_not_converged')
     # (iv) statistics attached to the right name (pairing only: formulas are C08's business)
     cols = {'Std err': se, 'Rob. Std err': rse}
@@ -2152,35 +2160,13 @@ def _run_iterfile(case):
             if not close(final_ll, rll, 1e-9, 1e-9):
                 V('reported-likelihood-not-the-one-of-the-reported-estimates-with-fixed-parameters-at-their-given-value',
                   f'results.data.logLike={final_ll!r}; reference at {est} with fixed {dict((n, given[n]) for n in fixed)} gives {rll!r}', estimates=est)
-            # (c) estimates attached by name: reference stationarity per coordinate (starting point is NOT judged: C15)
-            if converged:
-                try:
-                    d = ref.derivatives(ast, {'data': model['data'], 'weight': None}, values, free, hessian=True)
-                    denom = max(abs(rll), 1.0)
-                    lim = max(50 * 0.0001220703125, 1e-4)
-                    Hm = -np.array([[d['hessian'][(a_, b_)] for b_ in free] for a_ in free], dtype=float)
-                    eig = np.linalg.eigvalsh(0.5 * (Hm + Hm.T))
-                    if not (eig.min() > 1e-2 and eig.max() / eig.min() < 1e5) or max(abs(v) for v in est.values()) > 4.0 or abs(rll) < 5.0:
-                        # flat direction / quasi separation (estimates beyond 4, likelihood close to 0): the relative-gradient
-                        # scale of the optimiser's stopping rule degenerates, nothing to compare with
-                        rec.c('iterfile_ill_conditioned_not_judged_for_stationarity')
-                        names_to_judge = []
-                    else:
-                        names_to_judge = free
-                        rec.ev()
-                        rec.c('iterfile_stationarity_by_name_checked')
-                    for n in names_to_judge:
-                        g = d['gradient'][n]
-                        lo, hi = _bounds_of(model, n)
-                        if lo is not None and abs(est[n] - lo) <= 1e-6 and g <= lim * denom:
-                            continue
-                        if hi is not None and abs(est[n] - hi) <= 1e-6 and g >= -lim * denom:
-                            continue
-                        if abs(g) * max(abs(est[n]), 1.0) / denom > lim:
-                            V('reported-estimate-not-stationary-for-its-own-name', f'd LL / d {n!r} = {g} at {est}', name=n)
-                            break
-                except Exception:
-                    rec.c('reference_out_of_domain')
+            # (c) the gradient held by the results, entry by entry, is the reference derivative for THAT name at the reported
+            #     estimates (neither the starting point -- C15 -- nor the quality of the stopping point -- C07 -- is judged)
+            try:
+                d = ref.derivatives(ast, {'data': model['data'], 'weight': None}, values, free, hessian=False)
+                _reported_gradient_by_name(rec, lambda mech, msg: V(mech, msg), res, free, d['gradient'], 'iterfile_reported_gradient_by_name_checked')
+            except Exception:
+                rec.c('reference_out_of_domain')
             for b in objs:
                 if b.status == 0 and b.name in est and float(b.initValue) != est[b.name]:
                     V('free-beta-object-carries-estimate-of-another-parameter', f'{b.name!r}: {b.initValue} vs {est[b.name]}', name=b.name)
@@ -2217,7 +2203,7 @@ def finalize(cov, tier):
             'simulate_formula_vs_reference', 'simulate_missing_name_refused', 'dict_to_list_checked',
             'partial_dictionary_vs_reference', 'partial_dictionary_with_unnamed_free_parameters', 'named_gradient_vs_reference',
             'expression_change_init_values', 'biogeme_change_init_values', 'fix_betas_checked', 'estimations_run',
-            'optimizer_handover_checked', 'final_likelihood_vs_reference_at_reported_estimates', 'stationarity_by_name_checked',
+            'optimizer_handover_checked', 'final_likelihood_vs_reference_at_reported_estimates', 'reported_gradient_by_name_checked',
             'standard_errors_pairing_checked', 'covariance_pairing_checked', 'estimations_with_active_bound',
             'fixed_parameters_after_estimation_checked', 'sensitivity_draws_by_name_checked', 'estimates_O_vs_R_compared',
             'estimates_O_vs_S_compared', 'likelihood_O_vs_R', 'likelihood_O_vs_S', 'simulate_O_vs_R', 'duplicates_refused',
@@ -2230,7 +2216,7 @@ def finalize(cov, tier):
             'iterfile_estimations_with_a_saved_file', 'iterfile_file_names_a_parameter_that_is_now_fixed',
             'iterfile_file_names_a_parameter_the_specification_does_not_contain', 'iterfile_free_parameter_absent_from_the_file',
             'iterfile_fixed_parameters_checked', 'iterfile_engine_calls_checked', 'iterfile_final_likelihood_vs_reference',
-            'iterfile_stationarity_by_name_checked']
+            'iterfile_reported_gradient_by_name_checked']
     from ..gen import c03_models as gm
 
     need += ['renaming_' + k for k in gm.RENAMINGS]
